@@ -24,7 +24,6 @@ Definition den_piece (W : World) (p : piece) : str :=
   end.
 Definition den_pieces (W : World) (ps : list piece) : str := flat_map (den_piece W) ps.
 
-Definition is_name_start (c : char) : bool := is_alpha c || (c =? 95).
 Definition is_name (k : str) : bool :=
   match k with
   | c :: r => is_name_start c && forallb is_alnum_us r
@@ -107,21 +106,14 @@ Definition range_ref (a b s : Z) : list Z :=
   then map (fun k => (a + Z.of_nat k * st)%Z) (seq 0 (S (Z.to_nat ((b - a) / st))))
   else map (fun k => (a - Z.of_nat k * st)%Z) (seq 0 (S (Z.to_nat ((a - b) / st)))).
 
-(* ------------------------------------------------------------------ C10: the domain of the partial theorem *)
-(** characters that can neither start a reference (dollar), nor break re1 / re2 (newline),
-    nor make one of env_in_token's four exemption patterns match: those need an open
-    paren, or an equals sign together with a backquote or a single quote.  [noeq] selects
-    which of the two ways the word avoids the latter. *)
-Definition okc (noeq : bool) (c : char) : bool :=
-  negb (c =? 36) && negb (c =? 10) && negb (c =? 40)
-  && (if noeq then negb (c =? 61) else negb (c =? 96) && negb (c =? 39)).
-
-Definition lits_ok (noeq : bool) (ps : list piece) : bool :=
-  forallb (fun p => match p with PLit c => okc noeq c | PRef _ _ => true end) ps.
-Definition vals_ok (noeq : bool) (W : World) (ps : list piece) : bool :=
-  forallb (fun p => match p with PLit _ => true | PRef _ k => forallb (okc noeq) (key_value W k) end) ps.
-Definition dom_ok (noeq : bool) (W : World) (ps : list piece) : bool := lits_ok noeq ps && vals_ok noeq W ps.
-
-(** decidable: the word is a well-formed segment list and lies in one of the two character classes *)
-Definition c10_dom (W : World) (ps : list piece) : bool :=
-  wf_pieces ps && (dom_ok true W ps || dom_ok false W ps).
+(* ------------------------------------------------------------------ C10: words the gate lets through *)
+(** env_in_token (the gate in front of the scan, unchanged by e586def) exempts tokens shaped like
+    NAME=`..`, NAME=$(..), $(..) and ..='..$NAME..': each of these needs an open paren, or an equals
+    sign together with a backquote or a single quote.  A word none of whose LITERAL characters can
+    take part in such a shape is always expanded; [noeq] selects which of the two ways it avoids
+    the equals-and-quote shapes.  Values are not restricted in any way. *)
+Definition okg (noeq : bool) (c : char) : bool :=
+  negb (c =? 40) && (if noeq then negb (c =? 61) else negb (c =? 96) && negb (c =? 39)).
+Definition lits_okg (noeq : bool) (ps : list piece) : bool :=
+  forallb (fun p => match p with PLit c => okg noeq c | PRef _ _ => true end) ps.
+Definition gate_ok (ps : list piece) : bool := lits_okg true ps || lits_okg false ps.
